@@ -586,7 +586,11 @@ class FxTr:
                 raise Unsupported("comparison operator")
             return t
         if isinstance(e, ast.BoolOp):
-            parts = [self.cond(v, env) for v in e.values]
+            parts = []
+            for v in e.values:                       # short circuit: operands after a deciding literal are not evaluated
+                parts.append(self.cond(v, env))
+                if parts[-1] == ("false" if isinstance(e.op, ast.And) else "true"):
+                    break
             if isinstance(e.op, ast.And):
                 if "false" in parts:
                     return "false"
